@@ -149,7 +149,9 @@ fn call_merge_result_never_lost_body(a: Sel, b: Sel) {
             kani::assert(!matches!(scheme, PreparationScheme::Current), "C05: value source is previous or both");
             // the scheme decides which position maps are filled: a result present in BOTH data must be findable
             // from its current-data position too (fold lore of current data is looked up through it)
-            kani::assert(matches!(scheme, PreparationScheme::Both) == !is_request(b), "C13/C09: results on both sides are mapped to both data, a result over a request to previous only");
+            // Executed results on both sides are mapped to both data (their positions are looked up by folds over
+            // the stream they feed); a failed call is no stream value: the code maps Failed/Failed to previous only
+            kani::assert(matches!(scheme, PreparationScheme::Both) == (!is_request(b) && a.kind != 5), "C13/C09: executed results on both sides are mapped to both data, everything else kept from previous to previous only");
         }
     }
     kani::cover!(r.is_ok() && !is_request(b), "merged with a current result");
